@@ -224,6 +224,63 @@ def _mkrepo(path, branches, tags):
         _git(path, "tag", t)
 
 
+def _update_and_compare(ctx, r, rdir, remote, remote_seen, local_seen, tags, v, extra_sig=None):
+    """one RallyRepository.update against real git: model correspondence + the documented-choice oracle.
+    remote_seen / local_seen are the branch sets as git itself shows them (upstream / clone) before the update."""
+    from esrally import exceptions
+
+    case = {"remote": remote, "tags": tags, "v": v}
+    try:
+        r.update(case["v"])
+        head = _git(rdir, "rev-parse", "--abbrev-ref", "HEAD")
+        if head == "HEAD":
+            obs = {"r": ["tag", _git(rdir, "describe", "--tags", "--exact-match")]} if False else {"r": ["tag", None]}
+        else:
+            obs = {"r": ["branch", head]}
+    except exceptions.SystemSetupError:
+        obs = {"err": "SystemSetupError"}
+    except exceptions.DataError:
+        obs = {"err": "DataError"}
+    except TypeError:
+        obs = {"err": "TypeError"}
+    m = ctx.model("versions", "repo_update", {"remote": case["remote"], "remote_branches": remote_seen, "local_branches": local_seen, "tags": case["tags"], "v": case["v"]})
+    # canonicalise the model's answer to what git can show
+    if "r" in m:
+        kind, name = m["r"]
+        if kind in ("remote", "local"):
+            # `git checkout <name>` also succeeds for a name that only exists as origin/<name> (DWIM)
+            exists = name in remote_seen or name in local_seen
+            mm = {"r": ["branch", name]} if exists else {"err": "DataError"}  # e.g. 'master' chosen but no such branch
+        else:
+            mm = {"r": ["tag", None]}
+    else:
+        mm = {"err": m["err"]}
+    if mm != obs:
+        ctx.diff("repo_update", mm, obs)
+    # direct oracle: what is checked out is the documented choice (remote first, then local, then tag)
+    exp = None
+    applicable = True
+    if case["remote"]:
+        e, ok = oracle_best_match(remote_seen, case["v"])
+        applicable = ok  # a non-canonical numeral such as 7.01 among the branches is outside the property's scheme
+        if ok and e is not None:
+            exp = {"r": ["branch", e]} if (e in remote_seen or e in local_seen) else {"err": "DataError"}
+    if exp is None and applicable:
+        e, ok = oracle_best_match(local_seen, case["v"])
+        if ok and e is not None:
+            exp = {"r": ["branch", e]} if (e in local_seen or e in remote_seen) else {"err": "DataError"}
+        elif ok:
+            mt = STRICT.match(case["v"])
+            M, mi, pa, sf = mt.group(1), mt.group(2), mt.group(3), mt.group(4)
+            cands = ([f"v{int(M)}.{int(mi)}.{int(pa)}-{sf}"] if sf else []) + [f"v{int(M)}.{int(mi)}.{int(pa)}", f"v{int(M)}.{int(mi)}", f"v{int(M)}"]
+            exp = {"r": ["tag", None]} if any(c in case["tags"] for c in cands) else {"err": "SystemSetupError"}
+    if exp is not None and obs != exp and obs.get("err") != "TypeError":
+        cls = "prior-minor-zero" if (exp.get("r") and re.match(r"^\d+\.0$", str(exp["r"][1]))) else "repo-precedence"
+        ctx.fail(cls, "checked-out revision differs from documented choice", exp, obs)
+    ctx.sig([m.get("tags"), list(obs.keys()), case["remote"], extra_sig])
+    return obs
+
+
 SAFE = re.compile(r"^[A-Za-z0-9][A-Za-z0-9._-]*$")
 
 
@@ -287,54 +344,84 @@ def run_repo(ctx, case):
             local_seen = local_br + ["seed"]
             remote_seen = []
         r = repo.RallyRepository(url, root, "r", "tracks", offline=False, fetch=True)
-        try:
-            r.update(case["v"])
-            head = _git(rdir, "rev-parse", "--abbrev-ref", "HEAD")
-            if head == "HEAD":
-                obs = {"r": ["tag", _git(rdir, "describe", "--tags", "--exact-match")]} if False else {"r": ["tag", None]}
-            else:
-                obs = {"r": ["branch", head]}
-        except exceptions.SystemSetupError:
-            obs = {"err": "SystemSetupError"}
-        except exceptions.DataError:
-            obs = {"err": "DataError"}
-        except TypeError:
-            obs = {"err": "TypeError"}
-        m = ctx.model("versions", "repo_update", {"remote": case["remote"], "remote_branches": remote_seen, "local_branches": local_seen, "tags": case["tags"], "v": case["v"]})
-        # canonicalise the model's answer to what git can show
-        if "r" in m:
-            kind, name = m["r"]
-            if kind in ("remote", "local"):
-                # `git checkout <name>` also succeeds for a name that only exists as origin/<name> (DWIM)
-                exists = name in remote_seen or name in local_seen
-                mm = {"r": ["branch", name]} if exists else {"err": "DataError"}  # e.g. 'master' chosen but no such branch
-            else:
-                mm = {"r": ["tag", None]}
-        else:
-            mm = {"err": m["err"]}
-        if mm != obs:
-            ctx.diff("repo_update", mm, obs)
-        # direct oracle: what is checked out is the documented choice (remote first, then local, then tag)
-        exp = None
-        applicable = True
-        if case["remote"]:
-            e, ok = oracle_best_match(remote_seen, case["v"])
-            applicable = ok  # a non-canonical numeral such as 7.01 among the branches is outside the property's scheme
-            if ok and e is not None:
-                exp = {"r": ["branch", e]} if (e in remote_seen or e in local_seen) else {"err": "DataError"}
-        if exp is None and applicable:
-            e, ok = oracle_best_match(local_seen, case["v"])
-            if ok and e is not None:
-                exp = {"r": ["branch", e]} if (e in local_seen or e in remote_seen) else {"err": "DataError"}
-            elif ok:
-                mt = STRICT.match(case["v"])
-                M, mi, pa, sf = mt.group(1), mt.group(2), mt.group(3), mt.group(4)
-                cands = ([f"v{int(M)}.{int(mi)}.{int(pa)}-{sf}"] if sf else []) + [f"v{int(M)}.{int(mi)}.{int(pa)}", f"v{int(M)}.{int(mi)}", f"v{int(M)}"]
-                exp = {"r": ["tag", None]} if any(c in case["tags"] for c in cands) else {"err": "SystemSetupError"}
-        if exp is not None and obs != exp and obs.get("err") != "TypeError":
-            cls = "prior-minor-zero" if (exp.get("r") and re.match(r"^\d+\.0$", str(exp["r"][1]))) else "repo-precedence"
-            ctx.fail(cls, "checked-out revision differs from documented choice", exp, obs)
-        ctx.sig([m.get("tags"), list(obs.keys()), case["remote"]])
+        _update_and_compare(ctx, r, rdir, case["remote"], remote_seen, local_seen, case["tags"], case["v"])
+    finally:
+        shutil.rmtree(tmp, ignore_errors=True)
+
+
+def _branch_names(rng, lo, hi, weird=0.05):
+    out = []
+    for _ in range(rng.randrange(lo, hi)):
+        b = gen_branch(rng, weird=weird)
+        if SAFE.match(b) and not b.endswith(".") and ".." not in b and not b.endswith(".lock") and b not in out and b != "seed":
+            out.append(b)
+    return out
+
+
+def gen_repo_history(ctx):
+    """state carried between Rally invocations: one clone, an upstream whose branch set changes (branches added, retired,
+    re-created) between invocations, a new RallyRepository (fetch + update) per invocation"""
+    rng = ctx.rng
+    for _ in range(ctx.budget):
+        pool = _branch_names(rng, 3, 7, weird=0.0)
+        if rng.random() < 0.7 and "master" not in pool:
+            pool.append("master")
+        if len(pool) < 2:
+            pool += ["7", "7.2"]
+        initial = [b for b in pool if rng.random() < 0.6]
+        epochs = []
+        cur = set(initial)
+        for _ in range(rng.randint(2, 4)):
+            add = [b for b in pool if b not in cur and rng.random() < 0.35]
+            delete = [b for b in sorted(cur) if rng.random() < 0.35]
+            cur = (cur | set(add)) - set(delete)
+            # versions near the pool so that retired branches would matter
+            vs = []
+            for b in pool:
+                mt = re.match(r"^(\d+)(?:\.(\d+))?", b)
+                if mt:
+                    M = int(mt.group(1))
+                    mi = int(mt.group(2)) if mt.group(2) else rng.randrange(0, 4)
+                    vs += [f"{M}.{mi}.{rng.randrange(0, 3)}", f"{M}.{mi + 1}.0", f"{M + 1}.0.0"]
+            v = rng.choice(vs) if vs and rng.random() < 0.85 else rng.choice(["7.3.1", "7.8.0", "8.0.0", "7.6.2"])
+            epochs.append({"add": add, "delete": delete, "v": v})
+        tags = []
+        for _ in range(rng.randrange(0, 2)):
+            t = "v" + gen_branch(rng, weird=0.0)
+            if t not in tags:
+                tags.append(t)
+        yield {"initial": initial, "epochs": epochs, "tags": tags}
+
+
+def run_repo_history(ctx, case):
+    from esrally.utils import repo
+
+    tmp = tempfile.mkdtemp(prefix="c15h-")
+    try:
+        origin = os.path.join(tmp, "origin")
+        _mkrepo(origin, case["initial"], [])
+        root = os.path.join(tmp, "root")
+        os.makedirs(root)
+        rdir = os.path.join(root, "r")
+        subprocess.run(["git", "clone", "-q", origin, rdir], capture_output=True, check=True)
+        _git(rdir, "config", "user.email", "v@example.org")
+        _git(rdir, "config", "user.name", "v")
+        for t in case["tags"]:
+            _git(rdir, "tag", t)
+        for k, ep in enumerate(case["epochs"]):
+            for b in ep["add"]:
+                _git(origin, "branch", b, "seed")
+            for b in ep["delete"]:
+                _git(origin, "branch", "-D", b)
+            # what the upstream repository and the clone hold now, as git itself tells it
+            remote_seen = [b for b in _git(origin, "for-each-ref", "--format=%(refname:short)", "refs/heads").split("\n") if b]
+            local_seen = [b for b in _git(rdir, "for-each-ref", "--format=%(refname:short)", "refs/heads").split("\n") if b]
+            r = repo.RallyRepository(origin, root, "r", "tracks", offline=False, fetch=True)
+            retired = bool(ep["delete"]) or any(e["delete"] for e in case["epochs"][:k])
+            _update_and_compare(ctx, r, rdir, True, remote_seen, local_seen, case["tags"], ep["v"], extra_sig=["history", retired])
+            ctx.count("history-epochs")
+            if retired:
+                ctx.count("history-epochs-after-a-branch-was-retired-upstream")
     finally:
         shutil.rmtree(tmp, ignore_errors=True)
 
@@ -345,4 +432,5 @@ STREAMS = [
     Stream("best_match_quirk_names", gen_quirk, run_best_match, quick=500, thorough=20000, shards=2),
     Stream("small_universe", gen_small_universe, run_best_match, quick=6000, thorough=1, shards=16, exhaustive_thorough=True),
     Stream("repo_update_git", gen_repo, run_repo, quick=240, thorough=3000, shards=16),
+    Stream("repo_history_git", gen_repo_history, run_repo_history, quick=96, thorough=1500, shards=16),
 ]
